@@ -4,15 +4,18 @@ from . import vcdfam
 
 PID = "C14"
 LEVEL = "translation_validation"
-MODES = ["st", "rd", "rb", "hc", "hp", "hf:0", "hf:1", "mt:4:0"]
+MODES = ["st", "rd", "rb", "hc", "hp", "hf:0", "hf:1", "mt:4:0", "rbc:16", "rbc:7", "hbc:16:0", "hbc:5:1"]
+FILE_MODES = ["st", "mt", "rd", "rbc:16", "rbc:7", "hc", "hc:1", "hbc:16:0", "hbc:16:1", "hbc:3:1", "hf:0", "hf:1", "hf:1:1"]
 RULE = ("every generated VCD (generator of C01, incl. CRLF, $dumpvars, hashed ids, values before the first timestamp) is loaded "
         "through all entry points: read_with_options (mmap, multi_thread false/true), read_from_reader over Cursor and over "
         "BufReader<File>, viewers::read_header+read_body over a Cursor (with and without progress counter), "
-        "viewers::read_header_from_file+read_body with both multi_thread values. Oracle: all observations equal each other and "
+        "viewers::read_header_from_file+read_body with both multi_thread values, and read_from_reader / read_header over BufReader<File> with capacities of 5..16 bytes; empty and blank bodies; bodies of ~25 KiB at 8 (thorough: 24) alignments of the 8 KiB refill positions; a first header command of 6000 bytes; every non-empty corpus VCD/FST/GHW file below 60 KB (thorough: 3 MB) through 13 entry-point variants. Oracle: all observations equal each other and "
         "the meaning of the abstract history; body_len equal for the two-phase entry points. Non-trivial: the file has >= 2 time "
         "steps and >= 1 value change; distinct = distinct files.")
-ASSUMPTIONS = ["mmap, BufReader, ProgressTracker are I/O plumbing: exercised, not modelled",
-               "FST/GHW entry points are compared in C10/C11/C12"]
+ASSUMPTIONS = ["mmap, BufReader, ProgressTracker are I/O plumbing: exercised (also with BufReader capacities of 3..16 bytes so "
+               "that every multi-byte read straddles a refill), not modelled",
+               "FST/GHW containers are the dependency's / not modelled: for corpus FST and GHW files the oracle is agreement of all "
+               "entry points with each other"]
 TRUSTED_BASE = ["Python oracle gen.expected_obs"]
 
 
@@ -40,7 +43,49 @@ def run(res, rng, tier, model_ok, replay=None):
                 cases.append({"line": "vcd %s %s %s %s" % (mode, sarg, hdr.hex(), body.hex()), "expect": exp,
                               "key": nt, "klass": "mode-" + mode.split(":")[0]})
             groups.append((start, len(body)))
-        # an empty body and a blank body through every entry point (D5 was fixed / recorded)
+        # an empty body and blank bodies through every entry point
+        sigs = [gen.Sig("b", 1), gen.Sig("b", 4)]
+        idents, kind, idx, nuniq = gen.assign_ids(rng, 2, "dense")
+        hdr = gen.header_text(rng, sigs, idents, plain=True)
+        sarg = gen.sigs_arg(sigs, kind, idx, nuniq, idents)
+        for body in (b"", b"\n", b" ", b"\r\n\n", b"\n#0", b"\n#0\n"):
+            table, out = ([0], {0: [], 1: []}) if b"#0" in body else ([], {0: [], 1: []})
+            exp = gen.obs_string(table, out, idx)
+            start = len(cases)
+            for mode in MODES:
+                cases.append({"line": "vcd %s %s %s %s" % (mode, sarg, hdr.hex(), gen.hexs(body)), "expect": exp,
+                              "key": ("tiny", body, mode), "klass": "tiny-body"})
+            groups.append((start, len(body)))
+        # bodies larger than the 8 KiB BufReader buffer, at every alignment of the refill positions,
+        # and a first header command longer than 4 KiB
+        for k in range(8 if tier == "quick" else 24):
+            nsteps = 700
+            sigs = [gen.Sig("b", 1), gen.Sig("b", 16), gen.Sig("r")]
+            steps = [(1000 + j * 7, [(0, "01"[j % 2]), (1, format((j * 40503) % 65536, "016b"))] + ([(2, "%d.5" % j)] if j % 9 == 0 else []))
+                     for j in range(nsteps)]
+            idents, kind, idx, nuniq = gen.assign_ids(rng, len(sigs), "dense")
+            hdr = gen.header_text(rng, sigs, idents, plain=True)
+            pad = b"x" * (k if k < 20 else 6000)
+            hdr = b"$comment " + pad + b" $end\n" + hdr
+            body = gen.body_text(rng, sigs, idents, steps, False, "plain")
+            table, out = gen.expected_obs(sigs, steps, False)
+            exp = gen.obs_string(table, out, idx)
+            sarg = gen.sigs_arg(sigs, kind, idx, nuniq, idents)
+            start = len(cases)
+            for mode in MODES:
+                cases.append({"line": "vcd %s %s %s %s" % (mode, sarg, hdr.hex(), body.hex()), "expect": exp,
+                              "key": ("big", k, mode), "klass": "big-body-align"})
+            groups.append((start, len(body)))
+        k = 30
+        sigs = [gen.Sig("b", 1)]
+        idents, kind, idx, nuniq = gen.assign_ids(rng, 1, "dense")
+        hdr = b"$comment " + b"y" * 6000 + b" $end\n" + gen.header_text(rng, sigs, idents, plain=True)
+        body = b"\n#0\n1!\n#5\n0!\n"
+        start = len(cases)
+        for mode in MODES:
+            cases.append({"line": "vcd %s %s %s %s" % (mode, gen.sigs_arg(sigs, kind, idx, nuniq, idents), hdr.hex(), body.hex()),
+                          "expect": "tt=0,5 s0=0:2:1,1:2:0", "key": ("longcmd", mode), "klass": "long-first-command"})
+        groups.append((start, len(body)))
     impl, _ = vcdfam.run_both(res, cases, "c14", model_ok)
     for start, blen in groups:
         bls = set()
@@ -50,6 +95,31 @@ def run(res, rng, tier, model_ok, replay=None):
                 bls.add(o.split(" bl=")[1])
         if len(bls) > 1 or (bls and bls != {"%x" % blen}):
             res.violations.append((cases[start]["line"], "body_len values %s" % sorted(bls), "%x" % blen, "body_len differs between entry points"))
+    # corpus files of all three formats through every entry point: all observations must agree
+    import glob, os
+    files = sorted(f for f in glob.glob("/repo/wellen/inputs/**/*", recursive=True)
+                   if f.rsplit(".", 1)[-1] in ("vcd", "fst", "ghw") and os.path.isfile(f)
+                   and 0 < os.path.getsize(f) < (60000 if tier == "quick" else 3000000)
+                   and "with_errors" not in f and "ghdl_issue_538" not in f and "libsigrok.vcd.fst" not in f)
+    if not replay:
+        flines = []
+        for f in files:
+            for mode in FILE_MODES:
+                flines.append("file %s %s" % (mode, f))
+        outs = core.run_cases(core.WV_DEBUG, flines, "c14f", timeout=1200)
+        for i, f in enumerate(files):
+            group = outs[i * len(FILE_MODES):(i + 1) * len(FILE_MODES)]
+            res.evaluations += len(group)
+            ext = f.rsplit(".", 1)[-1]
+            res.distribution["corpus-" + ext] = res.distribution.get("corpus-" + ext, 0) + len(group)
+            digests = set(g.split(" bl=")[0] for g in group)
+            bls = set(g.split(" bl=")[1] for g in group if " bl=" in g)
+            if len(digests) > 1 or len(bls) > 1 or not group[0].startswith("digest="):
+                bad = [m + "=>" + g[:60] for m, g in zip(FILE_MODES, group)]
+                res.violations.append(("file <mode> " + f, "; ".join(bad)[:1500], "all entry points agree",
+                                       "entry points disagree on a corpus file"))
+            else:
+                res.nontrivial.add(f)
     res.samples = [c["line"][:300] for c in cases[:2]]
 
 
